@@ -264,6 +264,11 @@ def run_session(case):
             self.i = i; self.spec = spec
             self.input_required = bool(spec[7]); self.no_separator = bool(spec[8])
             self.input_manager.skip_concurrency_check = bool(spec[9])
+            if i % 2 == 1:
+                # every other screen takes hidden (password) input: same behaviour, other code path
+                # (PasswordInputHandler / PasswordInputHandlerRequest); the password function is the scripted reader
+                self.hide_user_input = True
+                self.password_func = lambda prompt: fake_get_input()
 
         def __str__(self):
             return "S%d" % self.i
